@@ -143,6 +143,9 @@ class LxPath:
     def stem(self):
         raise Unsupported("LxPath.stem")
 
+    def expanduser(self):
+        return LxPath(OsPathShim().expanduser(str(self)))
+
     def resolve(self, strict=False):
         """no symlinks: make absolute and fold '..' lexically ('/..' is '/')"""
         p = self.absolute()
@@ -248,6 +251,11 @@ def is_inside(p: LxPath, root: LxPath):
 
 # ---- os / os.path shim ---------------------------------------------------------------------
 
+def home():
+    """the model's HOME: a directory of the scratch tree outside every root the checks configure"""
+    return "/" + "/".join(CWD[:3]) + "/home"
+
+
 def _conc(*xs):
     return all((not isinstance(x, LxPath)) and (not isinstance(x, SymStr) or x.concrete()) for x in xs)
 
@@ -268,6 +276,17 @@ class OsPathShim:
                 raise Unsupported("os.path.%s on a symbolic path" % k)
             return f
         return real
+
+    def expanduser(self, p):
+        """'~' or '~/rest' -> HOME + rest; '~name' stays (the model has no other users); anything else unchanged"""
+        if isinstance(p, LxPath):
+            p = str(p)
+        s = S(p)
+        if len(s) == 0 or not bool(s[0] == "~"):
+            return p
+        if len(s) > 1 and not bool(s[1] == "/"):
+            return p
+        return S(home()) + s[1:]
 
     def join(self, *a):
         if _conc(*a):
